@@ -51,6 +51,9 @@ RULE = ("(a) random Hermitian 3D models x generic k: band-summed internal Berry 
         "(b) gapped 2D models (Haldane builders both phases, generalised QWZ with |C| up to 4, 3-band embeddings, "
         "random) x import route (pythtb / tbmodels / hand-built periodic=(T,T,F)) x lattice handedness x c in [1,20] A, "
         "NK=60x60x1: AHC_z*c*h/e^2 within 0.02 of the integer -C_z, C from own FHS; non-trivial = C != 0; "
+        "(c) the package's Haldane model (delta, hop2, phi drawn, global gap >= 0.25, E_F mid-gap from own bands) with its "
+        "magnetic point group {C3z} or {C3z, Mx*TimeReversal} on a symmetry-reduced grid NK 48..60, NKdiv 6..10: integer, "
+        "equal to the full-grid run and to the analytic |C|; non-trivial = group contains the TR-combined mirror; "
         "distinct = distinct generated case")
 ASSUMPTIONS = ["internal terms only (kwargs_formula external_terms=False), as in the statement",
                "Fermi level at the centre of a global gap >= GAP_MIN x hopping scale found on the harness' own 60x60 mesh",
@@ -428,7 +431,61 @@ def check_chern(case):
               info.get("haldane") and case.get("phase"))
 
 
+# ------------------------------------------------------------------------------------------------
+# part (c): the package's own Haldane model evaluated on a symmetry-reduced grid with its magnetic point group
+# (three-fold axis; vertical mirror combined with time reversal - the mirror alone reverses the flux)
+
+haldane_sym_case = st.fixed_dictionaries(dict(
+    delta=st.one_of(fl(-0.5, 0.5, 3), fl(-1.5, 1.5, 3)), hop2=fl(0.1, 0.3, 3), phi=st.sampled_from([np.pi / 2, np.pi / 3, -np.pi / 2, 2.1, 0.9]),
+    gens=st.sampled_from([["C3z"], ["C3z", "Mx*TimeReversal"], ["C3z", "Mx*TimeReversal"]]),
+    grid=st.sampled_from([[48, 8], [60, 6], [60, 10], [48, 6], [54, 6]])))      # NK, NKFFT  ->  NKdiv = 6..10 (>= 3)
+
+
+def check_haldane_sym(case):
+    import wannierberri as wb
+    from wannierberri import models
+    from wannierberri.system import System_R
+    from wannierberri.calculators.static import AHC
+    delta, t2, phi = float(case["delta"]), float(case["hop2"]), float(case["phi"])
+    m = 3 * np.sqrt(3) * t2 * np.sin(phi)
+    Cexp = 0 if abs(delta) > abs(m) else 1
+    # Fermi level: middle of the GLOBAL gap of the harness' own band structure (for cos(phi) != 0 the second-neighbour
+    # hopping shifts both bands, so E=0 need not lie in the gap)
+    own = wbsys.model_of_system(System_R.from_pythtb(models.Haldane_ptb(delta=delta, hop1=-1.0, hop2=t2, phi=phi)))
+    mesh = [(i / 36, j / 36, 0.0) for i in range(36) for j in range(36)] + [(1 / 3, 1 / 3, 0.0), (2 / 3, 2 / 3, 0.0), (1 / 3, 2 / 3, 0.0), (2 / 3, 1 / 3, 0.0)]
+    Eb = np.array([own.bands(np.array(k)) for k in mesh])
+    gap = float(Eb[:, 1].min() - Eb[:, 0].max())
+    if gap < 0.25:
+        raise Inconclusive("global Haldane gap below 0.25 |hop1|")
+    Ef = 0.5 * float(Eb[:, 1].min() + Eb[:, 0].max())
+    e, hbar, h, angstrom = _constants()
+    out = {}
+    for tag, gens in (("sym", case["gens"]), ("full", None)):
+        system = System_R.from_pythtb(models.Haldane_ptb(delta=delta, hop1=-1.0, hop2=t2, phi=phi))
+        if gens:
+            system.set_pointgroup(list(gens))
+        NK, FFT = case["grid"]
+        grid = wb.Grid(system, NK=[NK, NK, 1], NKFFT=[FFT, FFT, 1])
+        with scratch_dir() as d:
+            res = wb.run(system, grid, calculators={"ahc": AHC(Efermi=np.array([Ef, 50.0]), kwargs_formula={"external_terms": False})},
+                         adpt_num_iter=0, parallel=False, use_irred_kpt=bool(gens), symmetrize=bool(gens), restart=False,
+                         fout_name=os.path.join(d, "c27h"), file_Klist_path=os.path.join(d, "klist"), print_progress_step_time=1e9)
+        c = abs(system.real_lattice[2, 2])
+        out[tag] = np.array(res.results["ahc"].data, dtype=float) * c * angstrom * h / e ** 2
+    detail = (f"Haldane_ptb(delta={delta}, hop1=-1, hop2={t2}, phi={phi:.4f}) global gap {gap:.3f}, E_F={Ef:.4f}, point group {case['gens']}, grid "
+              f"{case['grid']}: AHC*c*h/e^2 = {out['sym'][0].tolist()} on the symmetry-reduced grid, {out['full'][0].tolist()} on the full grid")
+    vz = float(out["sym"][0, 2])
+    if abs(vz - round(vz)) > TOL_INT:
+        raise Violation("not-quantised", detail)
+    if abs(int(round(vz))) != Cexp or int(round(vz)) != int(round(float(out["full"][0, 2]))):
+        raise Violation("wrong-integer", f"expected |C|={Cexp}; " + detail)
+    if np.max(np.abs(out["sym"][1])) > TOL_INT:
+        raise Violation("ahc-above-all-bands", detail)
+    return ok(len(case["gens"]) == 2, f"|C|={Cexp}", "group=" + "+".join(case["gens"]), f"grid={case['grid']}")
+
+
 SUBS = [
+    Sub("haldane_sym", haldane_sym_case, check_haldane_sym, quick=12, thorough=64, budget_quick=120.0, budget_thorough=600.0, per_shard_min=1),
     Sub("sumrule", sum_case, check_sumrule, quick=200, thorough=6400, budget_quick=150.0, budget_thorough=900.0),
     Sub("chern", chern_case(), check_chern, quick=24, thorough=640, budget_quick=200.0, budget_thorough=900.0),
 ]
